@@ -431,7 +431,14 @@ def handle (j : Json) : R Json := do
     let steps ← (← fldArr j "steps").mapM stepOfJson
     let impl ← fld j "impl"
     match run consts t steps with
-    | .error e => return Json.mkObj [("model", Json.mkObj [("tree", errToJson e)]), ("judge", jstrs [])]
+    | .error e =>
+      -- the model refuses a step; an implementation that went on is still judged, on the state read off its object
+      let judged : List String ← match impl.getObjVal? "refused", impl.getObjVal? "tree" with
+        | .ok (.str _), _ => pure []
+        | _, .ok tj => if tj.isNull then pure [] else do
+            pure (judgeHistory (← dinfoOfJson tj) { derived := ← derivedOfJson impl, twin := ← optJVal impl "twin" })
+        | _, _ => pure []
+      return Json.mkObj [("model", Json.mkObj [("tree", errToJson e)]), ("judge", jstrs judged)]
     | .ok (t', outs) =>
       let ex := exportDatatype consts t'
       let derived : Except Err (DInfo Float) :=
